@@ -241,6 +241,35 @@ Proof.
   rewrite (zero_width_not_control wc c st Hw E) in Hc. discriminate.
 Qed.
 
+(* ------------------------------------------------------------ key data *)
+
+(* Multi-character key data (what Window._show_key_processor_key_buffer and
+   _highlight_digraph can receive from the input parser): no sequence of the
+   regenerated ANSI_SEQUENCES has display width 1, so the key-buffer cell
+   (guarded by get_cwidth(data) == 1) only ever gets ONE character; and, ESC
+   TAB apart, every sequence is control-free once ESC is replaced by write. *)
+Lemma key_sequences_width_checked : forallb (fun sw : list Z * Z => negb (snd sw =? 1)) key_sequences = true.
+Proof. vm_compute. reflexivity. Qed.
+
+Lemma key_sequences_write_checked :
+  forallb (fun sw : list Z * Z => control_free (vt_write (fst sw)) || str_eqb (fst sw) [27; 9]) key_sequences = true.
+Proof. vm_compute. reflexivity. Qed.
+
+Lemma key_data_width : forall s w, In (s, w) key_sequences -> w <> 1.
+Proof.
+  intros s w H E. pose proof key_sequences_width_checked as K. rewrite forallb_forall in K.
+  specialize (K _ H). cbn [snd] in K. subst w. discriminate.
+Qed.
+
+Lemma key_data_write_clean : forall s w, In (s, w) key_sequences -> s <> [27; 9] ->
+  control_free (vt_write s) = true.
+Proof.
+  intros s w H Hne. pose proof key_sequences_write_checked as K. rewrite forallb_forall in K.
+  specialize (K _ H). cbn [fst] in K. apply orb_true_iff in K. destruct K as [K|K]; [exact K|].
+  exfalso. apply Hne. clear - K. revert K. generalize [27; 9]. induction s as [|x r IH]; intros l K; destruct l as [|y l']; cbn in K; try discriminate; [reflexivity|].
+  apply andb_true_iff in K. destruct K as [K1 K2]. apply Z.eqb_eq in K1. subst. f_equal. apply IH. exact K2.
+Qed.
+
 (* Char on a multi-character string does no replacement at all: safety of a
    cell rests on the text argument being ONE character or already clean
    (the store sites are checked by gen/gen_t_c10.py). *)
